@@ -18,7 +18,7 @@ ANCHORS = ["occupancy_shape_from_state", "DynamicObstacle.occupancy_at_time", "D
            "TrajectoryPrediction._create_occupancy_set", "Scenario.occupancies_at_time_step",
            "Scenario.obstacle_states_at_time_step", "Scenario.obstacles_by_role_and_type",
            "Scenario.obstacles_by_position_intervals"]
-REQUIRED = ["requery-after.static.obstacle.translate_rotate", "set.intervals-sharing-a-step", "requery-after.trajectory.translate_rotate", "requery-after.prediction.shape=", "role.static", "role.dynamic", "role.phantom", "role.environment", "pred.trajectory", "pred.gap", "pred.set",
+REQUIRED = ["velocity-vector-state.moved-on-level-of-scenario", "velocity-vector-state.moved-on-level-of-trajectory", "contract.velocity-vector-state.asked-before-moved", "requery-after.static.obstacle.translate_rotate", "set.intervals-sharing-a-step", "requery-after.trajectory.translate_rotate", "requery-after.prediction.shape=", "role.static", "role.dynamic", "role.phantom", "role.environment", "pred.trajectory", "pred.gap", "pred.set",
             "pred.set-interval", "pred.none", "pred.overlap", "state.PMState", "state.KSState", "state.MBState", "state.CustomState",
             "exact-placement.Rectangle", "exact-placement.Circle", "exact-placement.Polygon",
             "exact-placement.ShapeGroup", "uncertain-position.Rectangle", "uncertain-position.Circle",
@@ -261,6 +261,53 @@ def run(ctx):
                     ctx.violation("C04/StaticObstacle.occupancy_at_time/varies-with-time", "%s vs %s" % (a, b), desc)
             except Exception:  # noqa  (already reported)
                 pass
+
+    # ------------------------------------------------------------- states that give their heading as a velocity vector
+    # CustomState(position, velocity, velocity_y) without orientation: the heading is atan2(vy, vx) of the velocity the state
+    # has NOW -- also after the occupancies were asked for once and the obstacle was moved on some level afterwards
+    import commonroad.scenario.state as st_
+    from commonroad.geometry.shape import Rectangle
+    for i, rng in ctx.cases("velocity-vector-states", ctx.pick(48, 3000)):
+        oid, t0 = 1 + i % 7, [0, 4][i % 2]
+        nst = 2 + i % 4
+        shape = Rectangle(rng.uniform(3, 6), rng.uniform(1, 2.5))
+        def vv(t):
+            a = rng.uniform(-math.pi, math.pi)
+            sp = rng.uniform(0.5, 20)
+            return st_.CustomState(time_step=t, position=np.array([100.0 * oid + t + 0.25, 50.0 * oid - t + 0.125]),
+                                   velocity=sp * math.cos(a), velocity_y=sp * math.sin(a))
+        level = ["trajectory", "prediction", "obstacle", "scenario"][i % 4]
+        ang = [1.0, -2.5, math.pi / 2, 0.03, 0.0][(i // 4) % 5]
+        tr = np.array([rng.uniform(-20, 20), rng.uniform(-20, 20)])
+        wit = {"case": i, "level": level, "angle": ang, "translation": list(map(float, tr)), "t0": t0, "states": nst}
+        try:
+            ob = DynamicObstacle(oid, ObstacleType.CAR, shape, st_.InitialState(
+                time_step=t0, position=np.array([100.0 * oid + t0 + 0.25, 50.0 * oid - t0 + 0.125]), orientation=0.3,
+                velocity=1.0), TrajectoryPrediction(Trajectory(t0 + 1, [vv(t0 + 1 + k) for k in range(nst)]), shape))
+            sc = Scenario(0.1)
+            sc.add_objects(ob)
+            ctx.feature("velocity-vector-state.moved-on-level-of-" + level)
+            for rnd in range(3):
+                for t in range(t0 + 1, t0 + nst + 1):
+                    ctx.evaluation()
+                    occ, sta = ob.occupancy_at_time(t), ob.state_at_time(t)
+                    pm = st_.PMState(time_step=t, position=np.array(sta.position, dtype=float), velocity=sta.velocity,
+                                     velocity_y=sta.velocity_y)
+                    occupancy.judge_placed("velocity-vector-state%s" % ("" if rnd == 0 else ".asked-before-moved"),
+                                           shape, pm, occ, t, dict(wit, t=t, round=rnd))
+                if rnd == 2:
+                    break
+                if level == "trajectory":
+                    ob.prediction.trajectory.translate_rotate(tr, ang)
+                elif level == "prediction":
+                    ob.prediction.translate_rotate(tr, ang)
+                elif level == "obstacle":
+                    ob.translate_rotate(tr, ang)
+                else:
+                    sc.translate_rotate(tr, ang)
+            ctx.fingerprint(["vv", level, ang, t0, nst, oid])
+        except Exception as e:  # noqa
+            ctx.violation("C04/velocity-vector-state/raises-%s" % type(e).__name__, repr(e)[:200], wit)
 
     # -------------------------------------------------------------------------------------------- scenario level
     n = ctx.pick(150, 6000)
